@@ -3,11 +3,14 @@
 spec/C14/Bimg.tla      : R-spec. A segment table (ordered segments, static offset or dynamic = aligned end of the predecessor,
                          device fill pattern) + a case (which segments are supplied, payload lengths, requested init offset)
                          determine the exported image completely; the spec is the READER of that image: Build / Refuse, then
-                         Gap and Seg steps along a cursor, End, then one ParseSeg step per included segment.
+                         Gap and Seg steps along a cursor, End, then one ParseSeg step per included segment.  A segment kind with a
+                         nominal size owns a slot; its payload is in one of the length classes short / nominal / long, and the rest of the
+                         slot behind a short payload is gap (device pattern): every Gap step says how many of its bytes are such a rest.
 spec/C14/BimgMC.tla    : MC + GEN. The tables are extracted from the device database at run time (TABLE_FILE); TLC enumerates,
                          per distinct table, subsets of optional segments x payload length menu x requested init offsets, checks
-                         the layout lemmas (NoOverlap, StartsWhereTold, InitSnap, CursorMonotone, TotalIsEnd) on every state of
-                         every walk and emits each case with its expected placement.
+                         the layout lemmas (NoOverlap, StartsWhereTold, InitSnap, CursorMonotone, TotalIsEnd, SlotRestIsGap) on every
+                         state of every walk, checks that the menu holds every length class of every fixed-size segment of every table
+                         (ClassesCovered) and emits each case with its expected placement, slot rests and length classes.
 spec/C14/BimgHist.tla  : R-spec, history layer. ONE object that lives on: every public mutator (init offset setter, load_config / clear of
                          a segment, export, the parse of its own export taking its place) is an action on the CURRENT case; after any
                          history the export must be the image Bimg prescribes for the current case (= the image of a fresh object).
@@ -33,6 +36,8 @@ PROP = "C14"
 ANCHORS = os.path.join(ROOT, "anchors", "C14")
 
 RAW = ("keyblob", "keystore", "bee_header_0", "bee_header_1")       # opaque fixed-size blocks: parse returns exactly SIZE bytes
+FIXED = RAW + ("fcb", "fcb_xspi")                                   # segment kinds that own a slot of SIZE bytes and whose payload is a file of any
+                                                                    # length (shorter than the slot / nominal / longer); parse returns SIZE bytes
 VERSION = ("image_version", "image_version_ap")                     # 4-byte blocks written from an integer, always present
 CONTAINERS = ("mbi", "hab_container", "ahab_container", "primary_image_container_set", "secondary_image_container_set", "sb21", "sb31")
 PATTERNS = {"zeros": 0, "ones": 255}
@@ -58,7 +63,7 @@ def inventory():
                     segs.append({"name": name, "off": int(off) if off >= 0 else -1, "size": max(int(cls.SIZE), 0),
                                  "al": int(cls.OFFSET_ALIGNMENT), "cfg": cls.cfg_key(),
                                  "opt": name not in VERSION and (name not in CONTAINERS or off < 0),
-                                 "raw": name in RAW})
+                                 "raw": name in RAW, "fixed": name in FIXED and int(cls.SIZE) > 0})
                 sig = ("ones:" if pat == "ones" else "") + ",".join(f"{s['name']}@{s['off']:x}" if s["off"] >= 0 else f"{s['name']}@dyn{s['al']}" for s in segs)
                 key = json.dumps([pat, segs], sort_keys=True)
                 if key not in index:
@@ -306,8 +311,10 @@ class Materials:
 
 
 def raw_lens(table, i):
+    """Length classes of a fixed-size block: shorter than its slot (an opaque block: down to one byte; an FCB keeps its header and look-up
+    table: 5/8 of the slot), one byte short, nominal, and - where the next table offset leaves room - longer (up to that offset)."""
     s = table["segs"][i]
-    lens = [1, s["size"] - 1, s["size"]]
+    lens = [1 if s["raw"] else (s["size"] * 5) // 8, s["size"] - 1, s["size"]]
     rm = room(table, i)
     if rm is not None and rm > s["size"]:
         lens.append(rm)
@@ -324,7 +331,7 @@ def table_menus(tables, triples, mats, small=False):
         for i, s in enumerate(t["segs"]):
             if s["name"] in VERSION:
                 s["lens"] = [4]
-            elif s["raw"]:
+            elif s["fixed"]:
                 s["lens"] = raw_lens(t, i)
             else:
                 s["lens"] = sorted({m["len"] for m in mats.get(fam, rev, mt, t, i)})
@@ -364,6 +371,14 @@ class Exec:
             d = raw_payload(n, fam, name)
             return self.mats.put(d, "raw", f"{name}-{n}-{sha([fam])}.bin"), d
         menu = self.mats.get(fam, rev, mt, t, i)
+        if s["fixed"]:      # (FCB) the family's block in another length class: cut behind n bytes / followed by more bytes up to the next offset
+            base = open(menu[0]["bin"], "rb").read()
+            if n == len(base):
+                return menu[0]["bin"], base
+            d = bytearray(base[:n] if n < len(base) else base + raw_payload(n - len(base), fam, name, "long"))
+            if d[-1] in (0, 255):
+                d[-1] = 0xA5            # the last supplied byte differs from both fill patterns (the scanner sees where the payload ends)
+            return self.mats.put(bytes(d), "fixed", f"{name}-{n}-{sha([fam, rev, mt])}.bin"), bytes(d)
         k = s["lens"].index(n) if n in s["lens"] else 0
         m = menu[min(k, len(menu) - 1)]
         return (m["yaml"] if (use_yaml and "yaml" in m) else m["bin"]), open(m["bin"], "rb").read()
@@ -399,6 +414,13 @@ class Exec:
         pat = bytes([t["pat"]])
         cur = 0
         found = []
+        unused = 0      # bytes of the slot of the last found segment (nominal size of its class) that its payload did not fill
+
+        def gap(a, b):
+            """Bytes a..b lie between two payloads: the first `rest` of them are the unused rest of a slot; every one must be the pattern."""
+            rest = min(b - a, unused)
+            return {"ev": "Gap", "from": a, "to": b, "rest": rest, "restPat": image[a:a + rest] == pat * rest, "pat": image[a:b] == pat * (b - a)}
+
         for i, s in enumerate(t["segs"]):
             if i not in data or s["name"] not in claimed:
                 continue
@@ -411,12 +433,13 @@ class Exec:
                 ev.append({"ev": "Seg", "i": i + 1, "at": -1, "len": len(d), "ok": False, "apiOff": api[s["name"]][0], "apiLen": api[s["name"]][1]})
                 continue
             if at > cur:
-                ev.append({"ev": "Gap", "from": cur, "to": at, "pat": image[cur:at] == pat * (at - cur)})
+                ev.append(gap(cur, at))
             ev.append({"ev": "Seg", "i": i + 1, "at": at, "len": len(d), "ok": ok, "apiOff": api[s["name"]][0], "apiLen": api[s["name"]][1]})
             cur = at + len(d)
+            unused = max(0, int(type(claimed[s["name"]]).SIZE) - len(d))
             found.append(i)
         if cur < len(image):
-            ev.append({"ev": "Gap", "from": cur, "to": len(image), "pat": image[cur:] == pat * (len(image) - cur)})
+            ev.append(gap(cur, len(image)))
         # a block the object holds although it was not supplied; one that consists of fill bytes only is indistinguishable from an absent
         # one (the parser returns the image version word of an image without one as 4 fill bytes) and is read as gap
         extra = sorted(n for n, seg in claimed.items() if n not in [t["segs"][i]["name"] for i in data] and seg.export().strip(pat) != b"")
@@ -515,7 +538,7 @@ class Exec:
         use_yaml = r.random() < 0.25
         case = {"present": h["present"], "plen": h["plen"], "req": h["req"]}
         cfg, data, plen = self.payloads(case, triple, r, use_yaml)
-        steps = [{k: s[k] for k in s if k not in ("place", "total")} for s in h["hist"] if s["a"] != "Build"]
+        steps = [{k: s[k] for k in s if k not in ("place", "rest", "total")} for s in h["hist"] if s["a"] != "Build"]
         tr = {"id": hid, "tb": tb + 1, "present": case["present"], "plen": plen, "req": case["req"], "ev": [],
               "info": {"family": fam, "revision": rev, "mem_type": mt, "mode": "history", "lane": h.get("lane", ""), "yaml": use_yaml, "sig": t["sig"],
                        "config": {k: (os.path.basename(v) if isinstance(v, str) and os.sep in v else v) for k, v in cfg.items()},
@@ -671,6 +694,8 @@ def key_of(t, tables, matched):
     if k in ("SetSeg", "ClearSeg", "Reparse", "Export"):
         return hist(k.lower())
     if k == "Gap":
+        if not ev.get("restPat", True):     # the unused rest of the slot behind a short payload is not the device's pattern
+            return hist(f"gap/slot-rest-not-pattern/{names[walk[-1]['i'] - 1] if walk else '?'}")
         return hist("gap/" + ("range" if ev["pat"] else "not-pattern"))
     if k == "Seg":
         cls = "bytes" if not ev["ok"] else "api-offset" if ev["apiOff"] != ev["at"] else "api-length" if ev["apiLen"] != ev["len"] else "offset"
@@ -716,11 +741,13 @@ def synthetic_trace(case, tid):
     ev = [{"ev": "Build", "refused": False, "eff": case["eff"]}]
     cur = 0
     inc = [(i, p) for i, p in enumerate(case["place"]) if p[0] >= 0]
+    rest = 0
     for i, (off, n) in inc:
         if off > cur:
-            ev.append({"ev": "Gap", "from": cur, "to": off, "pat": True})
+            ev.append({"ev": "Gap", "from": cur, "to": off, "rest": rest, "restPat": True, "pat": True})
         ev.append({"ev": "Seg", "i": i + 1, "at": off, "len": n, "ok": True, "apiOff": off, "apiLen": n})
         cur = off + n
+        rest = case["rest"][i]          # as the spec emitted it with the case
     ev.append({"ev": "End", "total": case["total"], "apiLen": case["total"]})
     ev.append({"ev": "Parse", "ok": True, "init": case["eff"]})
     for i, (off, n) in inc:
@@ -736,14 +763,15 @@ def synthetic_hist_trace(h, tables, tid):
     place, eff = None, 0
 
     def walk(s):
-        cur = 0
+        cur = rest = 0
         for i, (off, n) in enumerate(s["place"]):
             if off < 0:
                 continue
             if off > cur:
-                ev.append({"ev": "Gap", "from": cur, "to": off, "pat": True})
+                ev.append({"ev": "Gap", "from": cur, "to": off, "rest": rest, "restPat": True, "pat": True})
             ev.append({"ev": "Seg", "i": i + 1, "at": off, "len": n, "ok": True, "apiOff": off, "apiLen": n})
             cur = off + n
+            rest = s["rest"][i]
         ev.append({"ev": "End", "total": s["total"], "apiLen": s["total"]})
 
     for s in h["hist"]:
@@ -875,8 +903,24 @@ def canary(cases, table_file, hists=None, tables=None):
     variant("canary-eff", lambda ev: ev[0].update(eff=ev[0]["eff"] + 1024))
     variant("canary-refused", lambda ev: (ev[0].update(refused=True), ev.__delitem__(slice(1, None))))
     variant("canary-missing-segment", lambda ev: ev.remove(first(ev, "Seg")))
-    want = {x["id"] for x in variants} - {"canary-good"}
-    n_good = 1
+    # the rest of a slot behind a short payload, on a device of either fill pattern: a trace whose slot rest is not the pattern, is not
+    # recognised as a slot rest (rest = 0) or has another length is rejected
+    good = {"canary-good"}
+    for pname, pval in sorted(PATTERNS.items()):
+        if tables is None or not any(t["pat"] == pval and any(s["fixed"] for s in t["segs"]) for t in tables):
+            continue        # the device database knows no fixed-size segment on a device with this pattern
+        case = next((c for c in cases if not c["refused"] and tables[c["tb"] - 1]["pat"] == pval
+                     and any(x > 0 and tables[c["tb"] - 1]["segs"][i]["fixed"] for i, x in enumerate(c["rest"]))), None)
+        if case is None:
+            raise Machinery(f"no case with a payload shorter than its slot on a table with pattern '{pname}' for the canary")
+        rested = lambda e: e["rest"] > 0  # noqa: E731
+        variant(f"canary-slot-{pname}-good", lambda ev: None)
+        good.add(f"canary-slot-{pname}-good")
+        variant(f"canary-slot-{pname}-rest-not-pattern", lambda ev: first(ev, "Gap", rested).update(restPat=False, pat=False))
+        variant(f"canary-slot-{pname}-rest-unseen", lambda ev: first(ev, "Gap", rested).update(rest=0))
+        variant(f"canary-slot-{pname}-rest-length", lambda ev: first(ev, "Gap", rested).update(rest=first(ev, "Gap", rested)["rest"] + 1))
+    want = {x["id"] for x in variants} - good
+    n_good = len(good)
     if hists:
         hv, hwant = hist_canaries(hists, tables)
         variants += hv
@@ -903,6 +947,7 @@ def plan(tier, cases, tables, triples, r):
         if not cs:
             raise Machinery(f"GEN emitted no case for table {tables[tb]['sig']}")
         r.shuffle(cs)
+        every = list(cs)
         trs = list(trs)
         r.shuffle(trs)
         if tier == "quick":
@@ -928,9 +973,78 @@ def plan(tier, cases, tables, triples, r):
             while len(cs) < 3 * len(trs):
                 cs.append(cs[k])
                 k += 1
-        for n, c in enumerate(cs):
-            jobs.append((c, trs[n % len(trs)]))
+        mine = [(c, trs[n % len(trs)]) for n, c in enumerate(cs)]
+        # the fill pattern is a property of the DEVICE: every (family, revision, memory type) whose table has a fixed-size segment gets at least one
+        # case in which a payload is shorter than its slot and the rest of the slot is gap (small tables with many devices would leave most out)
+        rested = [c for c in every if slot_rest_case(c, tables)]
+        if rested:
+            have = {tr for c, tr in mine if slot_rest_case(c, tables)}
+            for k, tr in enumerate(t for t in trs if t not in have):
+                mine.append((rested[k % len(rested)], tr))
+        jobs += mine
     return jobs
+
+
+def slot_rest_case(c, tables):
+    """Does the image of this case (as TLC emitted it) have a gap that is the unused rest of the slot of a fixed-size segment?"""
+    return not c["refused"] and any(x > 0 and tables[c["tb"] - 1]["segs"][i]["fixed"] for i, x in enumerate(c["rest"]))
+
+
+def final_coverage(out):
+    """Action -> generated states, from the LAST coverage report of a TLC run (a run longer than a minute prints interim reports as well,
+    which lib.tlc adds up)."""
+    import re
+
+    last = out.rsplit("The coverage statistics at", 1)[-1]
+    cov = {}
+    for name, n in re.findall(r"^<(\w+) line \d+, col \d+ to line \d+, col \d+ of module \w+>: \d+:(\d+)", last, re.M):
+        cov[name] = cov.get(name, 0) + int(n)
+    return cov
+
+
+def class_coverage(cases, jobs, tables):
+    """Every length class (short / nominal / long) of every fixed-size segment of every table - hence with every fill pattern the device
+    database has for that segment kind - and, for the short class, a case in which the rest of the slot is gap, must be among the cases that
+    are EXECUTED (classes and slot rests as TLC emitted them with the cases).  -> executed cases per pattern / segment kind / class."""
+    def items(c):
+        if c["refused"]:
+            return
+        for i, s in enumerate(tables[c["tb"] - 1]["segs"]):
+            if s["fixed"] and c["place"][i][0] >= 0:
+                yield (c["tb"] - 1, i, c["cls"][i])
+                if c["rest"][i] > 0:
+                    yield (c["tb"] - 1, i, "short+rest-is-gap")
+
+    need = {}
+    for c in cases:
+        for k in items(c):
+            need[k] = 0
+    for c, _ in jobs:
+        for k in items(c):
+            need[k] += 1
+    missing = sorted(f"{tables[tb]['sig']}:{tables[tb]['segs'][i]['name']}:{cl}" for (tb, i, cl), n in need.items() if n == 0)
+    if missing:
+        raise Machinery(f"length classes of fixed-size segments that no executed case reaches: {missing}")
+    names = {v: k for k, v in PATTERNS.items()}
+    out = {}
+    for (tb, i, cl), n in sorted(need.items()):
+        d = out.setdefault(names[tables[tb]["pat"]], {}).setdefault(tables[tb]["segs"][i]["name"], {})
+        d[cl] = d.get(cl, 0) + n
+    for pat, kinds in out.items():
+        for kind, d in kinds.items():
+            if not {"short", "nominal", "short+rest-is-gap"} <= set(d):
+                raise Machinery(f"fixed-size segment {kind} on devices with pattern {pat}: executed length classes are only {sorted(d)}")
+    # ... and on every device (family, revision, memory type) whose table has a fixed-size segment
+    devs = {}
+    for c, tr in jobs:
+        if any(s["fixed"] for s in tables[tr[3]]["segs"]):
+            devs[tr[:3]] = devs.get(tr[:3], False) or slot_rest_case(c, tables)
+    left = sorted("/".join(d) for d, ok in devs.items() if not ok)
+    if left:
+        raise Machinery(f"devices with a fixed-size segment on which no executed case leaves the rest of a slot as gap: {left}")
+    for pat, val in PATTERNS.items():
+        out.setdefault(pat, {})["devices with a short payload in a slot"] = len({tr[:3] for c, tr in jobs if tables[tr[3]]["pat"] == val and slot_rest_case(c, tables)})
+    return out
 
 
 HIST_STEPS = ("SetInit", "SetSeg", "ClearSeg", "Export", "Parse", "Reparse")
@@ -1039,13 +1153,14 @@ def run(tier):
             fires[a] += 1
     if mc.distinct != len(cases) + sum(fires.values()) or min(fires.values()) == 0:
         raise Machinery(f"state count {mc.distinct} does not match the walks of the {len(cases)} emitted cases ({fires}): vacuous or duplicated actions")
-    if not quick and any(mc.coverage.get(a, (0, 0))[1] != n for a, n in fires.items()):
-        raise Machinery(f"TLC coverage {mc.coverage} differs from the walks of the emitted cases {fires}")
+    if not quick and any(final_coverage(mc.out).get(a, 0) != n for a, n in fires.items()):
+        raise Machinery(f"TLC coverage {final_coverage(mc.out)} differs from the walks of the emitted cases {fires}")
     v.extra["action_firings"] = fires
     say(f"[C14] MC/GEN: {mc.distinct} states, {len(cases)} cases, lemmas hold, every action fires ({v.timer.s()}s)")
 
     # ---- execute on the real BootableImage
     jobs = plan(tier, cases, tables, triples, r)
+    v.extra["fixed_size_length_classes_executed"] = class_coverage(cases, jobs, tables)
     ex = Exec(tables, mats)
     jobs = [(n, c, tr, MODES[n % len(MODES)]) for n, (c, tr) in enumerate(jobs)]
     traces = pmap(lambda j: ex.run(*j), jobs, chunksize=4)
@@ -1102,11 +1217,14 @@ def run(tier):
                             "history emission; -simulate for the long lane) ; TLC BimgTrace (decides every executed case and history)")
     v.cov["rule"] = (
         f"cases = initial states of BimgMC: for each of the {len(tables)} distinct segment tables of the device database, every subset of optional "
-        "segments x payload length menu (1, size-1, size, up to the next offset; three real container sizes; shortest / middle / longest XMCD block) x requested start "
+        "segments x payload length menu (every fixed-size segment kind - key blob, key store, BEE header, FCB - in the three length classes shorter than its slot "
+        "(1 byte resp. 5/8 of an FCB; size-1), nominal, longer (up to the next table offset, where there is room), on every table = with both fill patterns (zeros, ones) "
+        "the database has for the kind; three real container sizes; shortest / middle / longest XMCD block) x requested start "
         "(0, every static segment start, one below, one above); thorough executes every case of the full menu (each on at least one triple of its table, triples taken in rotation so that every "
         "triple gets at least three cases); quick uses the menu without "
         "'size-1' / most 'one below' starts and executes every case with start 0 plus one length assignment per (start, subset), at least one case "
-        "per (family, revision, memory type); a case is non-trivial if the real image was built and "
+        "per (family, revision, memory type), and on every (family, revision, memory type) whose table has a fixed-size segment at least one case whose payload is shorter "
+        "than its slot (rest of the slot = gap, compared byte by byte with the device's pattern); a case is non-trivial if the real image was built and "
         "read (or the build was refused); distinct by (triple, case, API path). "
         "histories = behaviours of BimgHistGen on ONE live object created with every optional segment, from every requested start (0 and every static segment start): "
         + ("every sequence of 2 changes (init offset to every other start / payload of a segment supplied, replaced by the other length of the history menu, cleared) "
@@ -1123,7 +1241,9 @@ def run(tier):
         "application containers are mandatory, the secondary container set and all header blocks except the image version are optional",
         "payloads differ from the fill pattern in their first and last byte (an all-pattern block is indistinguishable from an absent one; the image version word "
         "that the parser returns for an image without one - 4 fill bytes - is read as gap)",
-        "an opaque fixed-size block (key blob, key store, BEE header) longer than its nominal size is placed and checked for overlap, but its parse result is not asserted",
+        "a fixed-size block (key blob, key store, BEE header, FCB) longer than its nominal size is placed and checked for overlap, but its parse result is not asserted",
+        "a payload shorter than the nominal size of its segment occupies exactly its bytes; the rest of the slot is gap (device pattern) - asserted byte-exactly in the "
+        "exported image and in the tail of the parsed segment, on devices with either fill pattern; a short FCB keeps its header and look-up table (5/8 of the block)",
         "requested starts inside the dynamic part of a table (behind the last static offset) and negative starts are outside the asserted domain",
         "segment sizes and the alignment of dynamic segments (1024) are read from the segment classes at run time; offsets and the fill pattern from the device database",
         "the init_offset spelled as a segment NAME in a configuration file is refused by the schema (format: number) although load_from_config handles it: observation, not asserted",
